@@ -53,6 +53,12 @@ func (in *interp) invoke(f *Closure, args []Value) Value {
 	// the function can refer to itself by name inside its body
 	self := Value{K: KFun, F: f}
 	act.Vars[f.Decl.Name] = &self
+	act.SelfName = f.Decl.Name
+	for _, p := range f.Decl.Params {
+		if p == f.Decl.Name {
+			act.SelfName = "" // a parameter of that name simply shadows it
+		}
+	}
 	for i, p := range f.Decl.Params {
 		v := args[i]
 		act.Vars[p] = &v
